@@ -102,6 +102,46 @@ pub fn check_world(spec: &RichSpec, l: &mut Local) -> Result<(), String> {
                     x.accounts[ent.auth_idx].pubkey = k;
                     mutant(&format!("other_role/{role}"), w, &x, true, l)?;
                 }
+                // the attacker signs and names, in one slot, an object of the same kind from the sibling universe (where the
+                // attacker IS the recorded authority): the call must fail, or leave every program account outside that universe untouched
+                for j in 0..ent.ix.accounts.len() {
+                    if j == ent.auth_idx {
+                        continue;
+                    }
+                    let Some(orig) = w.bank.accounts.get(&ent.ix.accounts[j].pubkey) else { continue };
+                    if orig.owner != WP || orig.data.len() < 8 {
+                        continue;
+                    }
+                    let kind: [u8; 8] = orig.data[..8].try_into().unwrap();
+                    for sk in r.sibling.iter() {
+                        let Some(sa) = w.bank.accounts.get(sk) else { continue };
+                        if sa.owner != WP || sa.data.len() < 8 || sa.data[..8] != kind || *sk == ent.ix.accounts[j].pubkey {
+                            continue;
+                        }
+                        let mut x = ent.ix.clone();
+                        x.accounts[j].pubkey = *sk;
+                        x.accounts[ent.auth_idx].pubkey = attacker_key;
+                        x.accounts[ent.auth_idx].is_signer = true;
+                        let mut c = w.clone();
+                        let o = c.exec(&x);
+                        l.count("mutant/sibling_object_with_its_own_authority");
+                        l.nontrivial(hash_of(&(ent.name, "sibling", j, spec_h)));
+                        if o.ok() {
+                            for (k, before) in w.bank.accounts.iter() {
+                                if before.owner != WP || r.sibling.contains(k) {
+                                    continue;
+                                }
+                                if c.bank.accounts.get(k).map(|a| &a.data) != Some(&before.data) {
+                                    return Err(format!(
+                                        "{}: signed by an outsider who is the authority of a sibling object passed in account slot {j}, the call succeeded and changed account {k} outside the outsider's objects",
+                                        ent.name
+                                    ));
+                                }
+                            }
+                            l.count("sibling_mutant_succeeded_without_touching_the_victim");
+                        }
+                    }
+                }
             }
             Class::Position(_) | Class::Bundle(_) => {
                 let (tok_account, tok_program, holder) = match &ent.class {
